@@ -36,6 +36,9 @@ static std::vector<Event> reqEvents()
     add("post-header", "PUT /h HTTP/1.0\r\nX-Tag: t1\r\nContent-Length: 2\r\n\r\nzz", 30, false);
     add("err-length-and-chunked", "POST /e HTTP/1.1\r\nContent-Length: 3\r\nTransfer-Encoding: chunked\r\n\r\nabc", 40, true);
     add("err-bad-chunk-after-chunk", "POST /e HTTP/1.1\r\nTransfer-Encoding: chunked\r\n\r\n3\r\nabc\r\nZZ\r\n", 56, true);
+    // abandoned in the middle of the data of a chunk (first read ends inside the chunk data)
+    add("err-chunk-bad-terminator", "POST /e HTTP/1.1\r\nTransfer-Encoding: chunked\r\n\r\n5\r\nabcdeXX\r\n", 54, true);
+    add("err-oversize-mid-chunk", "POST /o HTTP/1.1\r\nTransfer-Encoding: chunked\r\n\r\nc8\r\n" + std::string(150, 'c'), 52 + 40, true);
     add("err-method", "BREW /e HTTP/1.1\r\n\r\n", 3, true);
     add("err-version", "GET /e HTTQ/1.1\r\n\r\n", 10, true);
     // 41 header bytes + 70 body bytes arrive (within the 128 limit, body partly read), the next 60 trip the limit
@@ -152,6 +155,7 @@ static std::vector<Event> rspEvents()
     add("r-length", "HTTP/1.1 200 OK\r\nContent-Length: 5\r\nX-R: 1\r\n\r\nhello", 44, false);
     add("r-chunked", "HTTP/1.1 200 OK\r\nTransfer-Encoding: chunked\r\n\r\n3\r\nabc\r\n1\r\nd\r\n0\r\n\r\n", 52, false);
     add("r-cookie", "HTTP/1.0 404 Not Found\r\nSet-Cookie: s=1; Path=/\r\nContent-Length: 0\r\n\r\n", 30, false);
+    add("r-err-chunk-bad-terminator", "HTTP/1.1 200 OK\r\nTransfer-Encoding: chunked\r\n\r\n5\r\nabcdeXX\r\n", 53, true);
     add("r-err-version", "HTTQ/1.1 200 OK\r\n\r\n", 9, true);
     add("r-err-code", "HTTP/1.1 2x0 OK\r\n\r\n", 12, true);
     add("r-err-length-and-chunked", "HTTP/1.1 200 OK\r\nContent-Length: 3\r\nTransfer-Encoding: chunked\r\n\r\nabc", 40, true);
